@@ -25,6 +25,7 @@ CHECKS = {
  "C14": ("model_checking", SESS, "DESIGN.md 5 C14", "TLA+ spec (BasicRenum) + TLC RenumExact/RenumSound over referencing forms x argument triples, TLC trace validation incl. listed text"),
  "C15": ("model_checking", SESS, "DESIGN.md 5 C15", "TLA+ spec + TLC state graph of the program store (ListExact/DeleteExact/LineExact), TLC trace validation incl. listed text"),
  "C18": ("model_checking", SESS, "DESIGN.md 5 C18", "TLA+ spec + TLC StmtNeutral/PoolBounded; leak and pool-limit sessions validated by TLC trace validation (stack probe)"),
+ "C19": ("model_checking", SESS, "DESIGN.md 5 C19", "TLA+ spec (BasicProg.Analyze with character ranges from BasicShow segments) + TLC DiagInside/NoRun, TLC trace validation of codes, lines, ranges, underlines"),
  "C20": ("model_checking", SESS, "DESIGN.md 5 C20", "TLA+ spec + TLC LayoutInvariant over layout transformations, TLC trace validation of both layouts"),
 }
 NOTES = {"C08": "Exhaustive over the stated grid only (all 65536 values for unary forms in the thorough tier, boundary grid for binary operators); harness renderer/comparator trusted."}
